@@ -4,5 +4,5 @@ import NaijaVerif.Lemmas.AnalysisNoTrap
 BRIDGE, part 1: the primitives of the shared evaluator model `Model/Eval.lean` as an instance of the
 abstract `Prims` of the C03 evaluator `Model/AnalysisEval.lean` — `evalPrims`.  The definitions live
 in the core-only `Model/AnalysisPrims.lean` (the driver runs them against the real runtime); this
-file only re-exports them together with the laws `Lawful` are stated in (`Lemmas/AnalysisNoTrap.lean`).
+file only re-exports them together with `Lemmas/AnalysisNoTrap.lean`, where the laws `Lawful` are stated.
 -/
